@@ -23,6 +23,8 @@ func init() {
 			{ID: "C06.R4", Floor: 10, Run: c06r4, Text: "target flag: every function that allocates rows in a table obtained for a (non-constant) target sets targetEntities[target.id] under !target.IsZero(); every function that recycles an entity tests the flag, cleans up the entity's tables and clears it; creation clears the flag of the issued id"},
 			{ID: "C06.R6", Floor: 1, Run: c16r7, Text: "layout extension reaches retired tables too (= C16.R7): a retired table is re-used without re-initialisation, so it must not be skipped when layout arrays grow"},
 			{ID: "C06.R7", Floor: 1, Run: c05r11, Text: "target map ⇄ table target (= C05.R11): a re-used table is registered under the target it was activated with"},
+			{ID: "C06.R8", Floor: 2, Run: moversKeepDeadTargets, Text: "movers carry the inherited target over without testing its liveness: no Alive test on a value loaded from RelationTarget in a function that computes a destination table"},
+			{ID: "C06.R9", Floor: 3, Run: c01r7, Text: "column loops visit every column (= C01.R7): zeroing a vacated row must not stop at the first zero-sized component"},
 		},
 	})
 }
